@@ -302,7 +302,7 @@ func jsonBoundaries(src []byte) []int {
 
 func c15Work(c *engine.Ctx) {
 	psp := c.SpaceByName("position")
-	al := engine.NewAlphabet(engine.Atoms("a", "\n", "\r", "\r\n", "\u2028", "\u2029", "é", "😀", "\t", "\u200b", "\x00", "\u0085", "\u00ad", "\x7f", "\u00a0"))
+	al := engine.NewAlphabet(engine.Atoms("a", "\n", "\r", "\r\n", "\u2028", "\u2029", "é", "😀", "\t", "\u200b", "\x00", "\u0085", "\u00ad", "\x7f", "\u00a0", "%", "%s"))
 	lvl := c.EnumSeq(al, 0, c.Pick(5, 7), func(in []byte, idx []int) {
 		c.Exec(psp, in, nil)
 		c.Count("exec", 1)
@@ -313,7 +313,7 @@ func c15Work(c *engine.Ctx) {
 	c.Count("min:level_position", int64(lvl))
 	// elision family: one line of L distinct characters with special characters at the cut points
 	k := 0
-	specials := []rune{'x', 'é', '😀', '\t', 0x200b, 0x2028, 0x85, 0x9b, 0xad, 0x7f, 0xa0, 0xfeff}
+	specials := []rune{'x', 'é', '😀', '\t', 0x200b, 0x2028, 0x85, 0x9b, 0xad, 0x7f, 0xa0, 0xfeff, '%'}
 	for _, L := range []int{57, 58, 59, 60, 61, 62, 63, 64, 65, 66, 80, 100, 120} {
 		for _, sp := range specials {
 			for _, spPos := range []int{-1, 0, 16, 17, 19, 20, 21, 22, 36, 37, 39, 40, 41, 42, 56, 57, 59, 60, L - 42, L - 41, L - 40, L - 24, L - 23, L - 22, L - 21, L - 1} {
@@ -459,7 +459,7 @@ func c15Work(c *engine.Ctx) {
 				continue
 			}
 			cfgs := cfgsFor([]string{tm.space})
-			for _, ch := range []string{"x", "\u00e9", "\u2318", "\U0001F600"} {
+			for _, ch := range []string{"x", "\u00e9", "\u2318", "\U0001F600", "%d", "%"} {
 				for _, np := range counts {
 					for _, nt := range counts {
 						k++
